@@ -32,6 +32,7 @@ func init() {
 			semaphoreReleased(r, "semaphore-released")
 			kvPutGrowsStore(r)
 			kvInsertIntoWritableHead(r)
+			kvEntrySizeFormula(r)
 		},
 	})
 }
